@@ -4,10 +4,11 @@ from ..pybuild import PyFile
 from .common import Run, all_flags, corpus_cases, generic_replay, parse_list
 
 PROP = "C16"
-MODULE = "PLS.Props.C16T"     # imports PLS.Props.C16
+MODULE = "PLS.Props.C16C"     # imports PLS.Props.C16T, which imports PLS.Props.C16
 THEOREMS = ["PLS.C16_scope_order", "PLS.C16_scope_table", "PLS.C16_mismatch_sound", "PLS.C16_mismatch_complete",
             "PLS.C16_single_def_is_resolved", "PLS.C16_unknown_deps_dropped", "PLS.C16_known_deps_kept",
-            "PLS.C16_reported_cycles_are_cycles", "PLS.DfsS.inv2_step", "PLS.DfsS.sound_step", "PLS.DfsS.reported_closed",
+            "PLS.C16_reported_cycles_are_cycles", "PLS.C16_every_cycle_is_hit", "PLS.C16_every_cycle_meets_a_report",
+            "PLS.DfsC.inv3_step", "PLS.DfsC.key_inj", "PLS.DfsS.inv2_step", "PLS.DfsS.sound_step", "PLS.DfsS.reported_closed",
             "PLS.C12_dfs_terminates", "PLS.C12_dfs_fuel_irrelevant"]
 RULE = ("random dependency graphs over 3-6 fixture names spread over root conftest, sub conftest, a test module and a "
         "sibling: self loops with and without a parent, several SCCs, cycles through overridden names, dependencies on "
